@@ -431,7 +431,7 @@ func runLogProp(cfg logRunCfg) func(seed int64, tier string, outDir string) *res
 			}
 		}
 		// scenario monitors built on LogOptions.Entries (forged entries, shared entry maps)
-		if replayFile == "" && (cfg.prop == "C06" || cfg.prop == "C05" || cfg.prop == "C03" || cfg.prop == "C02" || cfg.prop == "C04" || cfg.prop == "C01" || cfg.prop == "C16" || cfg.prop == "C17") {
+		if replayFile == "" && (cfg.prop == "C06" || cfg.prop == "C05" || cfg.prop == "C03" || cfg.prop == "C02" || cfg.prop == "C04" || cfg.prop == "C01" || cfg.prop == "C16" || cfg.prop == "C17" || cfg.prop == "C15") {
 			st := &c06Stats{kinds: map[string]int{}}
 			xf := func(prop, mon, key, detail string, c interface{}) {
 				if prop == cfg.prop || contains(cfg.alsoReport, prop) {
